@@ -3,10 +3,10 @@ package c03
 
 import (
 	"context"
-	"sync/atomic"
 	"encoding/json"
 	"fmt"
 	"strings"
+	"sync/atomic"
 	"time"
 
 	"github.com/sharedcode/sop"
@@ -63,22 +63,22 @@ func combos(thorough bool) []combo {
 }
 
 type SiteRes struct {
-	Site     string `json:"site"`
-	Phase    string `json:"phase"` // before-commit-point | flip-window | after-commit-point
-	Parked   bool   `json:"parked"`
-	ReadDiff string `json:"read_diff,omitempty"` // reader's observation vs what it must see
-	Expect   string `json:"expect"`
+	Site      string `json:"site"`
+	Phase     string `json:"phase"` // before-commit-point | flip-window | after-commit-point
+	Parked    bool   `json:"parked"`
+	ReadDiff  string `json:"read_diff,omitempty"` // reader's observation vs what it must see
+	Expect    string `json:"expect"`
 	FinalDiff string `json:"final_diff,omitempty"`
 	WriterErr string `json:"writer_err,omitempty"`
-	Harness  string `json:"harness,omitempty"`
+	Harness   string `json:"harness,omitempty"`
 }
 
 type RoundRes struct {
-	Combo   combo          `json:"combo"`
-	Program *txn.Program   `json:"program,omitempty"`
-	Census  []string       `json:"census,omitempty"`
-	Sites   []SiteRes      `json:"sites"`
-	Harness string         `json:"harness,omitempty"`
+	Combo   combo        `json:"combo"`
+	Program *txn.Program `json:"program,omitempty"`
+	Census  []string     `json:"census,omitempty"`
+	Sites   []SiteRes    `json:"sites"`
+	Harness string       `json:"harness,omitempty"`
 }
 
 func setup(c combo, seed int64, idx int) (dir string, db sopx.DB, before, after txn.Model, prog txn.Program, err error) {
